@@ -203,3 +203,139 @@ func fieldOwner(fv *types.Var) string {
 	}
 	return relPkg(fv.Pkg())
 }
+
+// locksAnyField: all mutex fields fn may lock through synchronous module calls.
+func locksAnyField(w *World, fn *ssa.Function, seen map[*ssa.Function]bool, depth int, out map[*types.Var]string, via string) {
+	if fn == nil || seen[fn] || depth > 8 || len(fn.Blocks) == 0 {
+		return
+	}
+	seen[fn] = true
+	for _, c := range callsIn(fn) {
+		if _, isGo := c.(*ssa.Go); isGo {
+			continue
+		}
+		f := sCallee(c)
+		if (isMethod(f, "sync", "Mutex", "Lock") || isMethod(f, "sync", "RWMutex", "Lock") || isMethod(f, "sync", "RWMutex", "RLock")) && len(c.Common().Args) > 0 {
+			if m := mutexFieldOf(c.Common().Args[0]); m != nil {
+				if _, ok := out[m]; !ok {
+					out[m] = via + ssaFuncKey(fn)
+				}
+			}
+			continue
+		}
+		for _, callee := range syncCallees(w, c) {
+			locksAnyField(w, callee, seen, depth+1, out, via+ssaFuncKey(fn)+" -> ")
+		}
+	}
+}
+
+// ruleLockOrder: the "acquired while holding" relation between mutex fields is acyclic.
+func ruleLockOrder(w *World, r *Report, rule string, inScope func(pkgPath string) bool) {
+	type edge struct{ from, to *types.Var }
+	edges := map[edge]string{}
+	fields := map[*types.Var]bool{}
+	for fn := range allModuleFuncs(w, w.SSA()) {
+		f0 := fn
+		for f0.Parent() != nil {
+			f0 = f0.Parent()
+		}
+		if f0.Pkg == nil || !inScope(f0.Pkg.Pkg.Path()) {
+			continue
+		}
+		held := map[*types.Var]bool{}
+		for _, c := range callsIn(fn) {
+			f := sCallee(c)
+			if (isMethod(f, "sync", "Mutex", "Lock") || isMethod(f, "sync", "RWMutex", "Lock")) && len(c.Common().Args) > 0 {
+				if m := mutexFieldOf(c.Common().Args[0]); m != nil {
+					held[m] = true
+					fields[m] = true
+				}
+			}
+		}
+		for m := range held {
+			region, _ := lockRegion(fn, func(v ssa.Value) bool { return mutexFieldOf(v) == m })
+			for _, c := range callsIn(fn) {
+				if !region[c] {
+					continue
+				}
+				if _, isGo := c.(*ssa.Go); isGo {
+					continue
+				}
+				f := sCallee(c)
+				if (isMethod(f, "sync", "Mutex", "Lock") || isMethod(f, "sync", "RWMutex", "Lock")) && len(c.Common().Args) > 0 {
+					if m2 := mutexFieldOf(c.Common().Args[0]); m2 != nil && m2 != m {
+						edges[edge{m, m2}] = w.Pos(c.Pos()) + " in " + ssaFuncKey(fn)
+					}
+					continue
+				}
+				for _, callee := range syncCallees(w, c) {
+					acq := map[*types.Var]string{}
+					locksAnyField(w, callee, map[*ssa.Function]bool{}, 0, acq, "")
+					for m2, via := range acq {
+						if m2 != m {
+							if _, ok := edges[edge{m, m2}]; !ok {
+								edges[edge{m, m2}] = w.Pos(c.Pos()) + " in " + ssaFuncKey(fn) + " via " + via
+							}
+						}
+					}
+				}
+			}
+		}
+	}
+	// cycle search
+	adj := map[*types.Var][]*types.Var{}
+	for e := range edges {
+		adj[e.from] = append(adj[e.from], e.to)
+	}
+	name := func(m *types.Var) string { return fieldOwner(m) + "." + m.Name() }
+	var cyc []string
+	state := map[*types.Var]int{}
+	var stack []*types.Var
+	var dfs func(m *types.Var)
+	dfs = func(m *types.Var) {
+		state[m] = 1
+		stack = append(stack, m)
+		for _, n := range adj[m] {
+			if state[n] == 1 && len(cyc) == 0 {
+				i := 0
+				for j, x := range stack {
+					if x == n {
+						i = j
+					}
+				}
+				for j := i; j < len(stack); j++ {
+					nx := n
+					if j+1 < len(stack) {
+						nx = stack[j+1]
+					}
+					cyc = append(cyc, fmt.Sprintf("%s -> %s (%s)", name(stack[j]), name(nx), edges[edge{stack[j], nx}]))
+				}
+			} else if state[n] == 0 {
+				dfs(n)
+			}
+		}
+		stack = stack[:len(stack)-1]
+		state[m] = 2
+	}
+	var fl []*types.Var
+	for m := range fields {
+		fl = append(fl, m)
+	}
+	sort.Slice(fl, func(i, j int) bool { return name(fl[i]) < name(fl[j]) })
+	for _, m := range fl {
+		if state[m] == 0 {
+			dfs(m)
+		}
+	}
+	var es []string
+	for e, at := range edges {
+		es = append(es, name(e.from)+" -> "+name(e.to)+" @ "+at)
+	}
+	sort.Strings(es)
+	if len(fl) == 0 {
+		r.Undecided(rule, "lockorder", "-", "no mutex field locked in scope")
+		return
+	}
+	r.Check(len(cyc) == 0, rule, "lockorder:"+fmt.Sprint(len(fl))+"-mutex-fields", "-", fmt.Sprintf("%d mutex field(s), %d held-while-acquiring edge(s), no cycle: %s", len(fl), len(edges), strings.Join(es, "; ")),
+		"mutexes can be acquired in opposite orders by two goroutines (deadlock): "+strings.Join(cyc, " ; "))
+}
